@@ -143,8 +143,11 @@ func (p *c12Pair) afterRun(rep c12Replay, verbose bool, classify func(diff []str
 	if rep.Delivery == "none" {
 		rot = 0 // the uninjected run: natural order, so that the answers can be checked against Go's
 	}
-	got := p.sub.battery(p.directFirst, rot)
-	want := p.ref.battery(p.directFirst, rot)
+	// the direct call leads after even injection points, the top-level defer/recover items after odd ones:
+	// each would repair what the other looks at
+	directFirst := p.directFirst && rep.K%2 == 0
+	got := p.sub.battery(directFirst, rot)
+	want := p.ref.battery(directFirst, rot)
 	p.res.Comparisons += len(got)
 	if !p.wantChecked {
 		p.wantChecked = true
@@ -241,6 +244,12 @@ func c12RunTask(t *c12Task) *c12TaskResult {
 			res.cover("outcome", rr.Outcome)
 			res.cover("inject_context", rr.Ctx)
 			res.cover("state_after_abort", rr.State.shape())
+			if idle := (c12State{CurrEnv: rr.State.CurrEnv}); t.Check == "C12" && (rr.State.PanicFun != idle.PanicFun || rr.State.DeferOfFun != idle.DeferOfFun || rr.State.ExecFlags != idle.ExecFlags) {
+				// the per-goroutine defer/panic bookkeeping still refers to the aborted evaluation: a later recover()
+				// in a frame that happens to match would return the old panic value
+				p.violation("run-state-not-idle-after-abort", "", fmt.Sprintf("probe %s (%s) aborted at hook call %d: interpreter bookkeeping is %s, a fresh interpreter's is %s",
+					t.Probe, t.Mode, k, rr.State.shape(), idle.shape()), rep)
+			}
 			for _, tag := range probe.Tags {
 				res.cover("probe_feature", tag)
 			}
@@ -396,7 +405,7 @@ func checkC12(r *fw.Run) {
 		"a case = (probe, interpreter mode, k): the k-th dynamic hook call panics with a unique value, for EVERY k up to the N calls of an uninjected run, all in one interpreter; distinct = cases whose k-th call was actually reached; " +
 		"oracle = afterwards a fixed battery of " + fmt.Sprint(len(c12Battery)) + " evaluations (defer order, recover at depth 1/2, recover without panic, fresh panic value, named results, closure state, nested Eval, redefinition, single-step call depth, direct call from Go) gives item by item the answers of a lock-step reference interpreter that never ran the probe")
 	r.Assume("the reference interpreter (same definitions, same battery history, never ran a probe) is a valid stand-in for 'had the aborted evaluation never run'; its first battery run is additionally checked against the answers of compiled Go")
-	r.Assume("per-goroutine Run fields after the abort are recorded as evidence (table state_after_abort) but never asserted")
+	r.Assume("after an aborted evaluation the defer/panic bookkeeping of the goroutine's Run (ExecFlags, DeferOfFun, PanicFun) must be idle, as in a new interpreter: a stale PanicFun makes a later recover() in a matching frame return the old panic value; the other Run fields are recorded (table state_after_abort), not asserted")
 	if c12Replayed(r) {
 		return
 	}
